@@ -191,7 +191,7 @@ func stepORGD(r *Runner, s Step) error {
 	idx := cr.n.Load()
 	lo, cands := r.Candidates()
 	keep, cnt := keepFn(0, idx)
-	img := &crashImage{fs: cr.mem.VerifCrashClone(keep), idx: idx, op: "orgd iterator opened", surv: 0, step: r.stepIdx, lo: lo, cands: cands}
+	img := &crashImage{fs: cr.mem.VerifCrashClone(keep), idx: idx, op: "orgd iterator opened", surv: 0, step: r.stepIdx, lo: lo, cands: cands, wal: r.walConfig()}
 	img.nAsked, img.nKept = cnt[0], cnt[1]
 	shown, err := DumpIter(it)
 	if err != nil {
